@@ -13,7 +13,8 @@ TRUSTED = ["partial by nature: the theorems cover order-independence of the mode
            "have no other source of non-determinism is exploration (fresh interpreters under several PYTHONHASHSEED values)",
            "translator/t_itersites.py: heuristic scan for iteration over set-typed expressions"]
 
-CORPUS_QUICK = ["1DFU_1_M-N.cif", "1E7K_1_C.cif", "1HMH_1_E.cif", "4WTI_1_T-P.cif", "6INQ.cif", "184D.cif", "1JJP.cif", "488d.pdb"]
+CORPUS_QUICK = ["1DFU_1_M-N.cif", "1E7K_1_C.cif", "1HMH_1_E.cif", "4WTI_1_T-P.cif", "6INQ.cif", "184D.cif", "1JJP.cif", "488d.pdb",
+                "8btk_B7.cif", "4qln.cif"]     # the last two have equally supported, mutually exclusive edge assignments (ties in most_common)
 CORPUS_MORE = ["1A1T_1_B.cif", "1ehz-assembly-1.cif", "q-ugg-5k-salt_400-500ns_frame1065.pdb", "2HY9.cif"]
 
 
